@@ -332,10 +332,12 @@ def to_str(it, val, node=None):
 
 
 def seq_eq_structural(it, a, b):
-    """True if descriptors are identical after canonicalisation, else None."""
+    """True if the descriptors denote the same sequence under the path constraints (segment-wise), else None."""
     if a.kind != b.kind or len(a.segs) != len(b.segs):
         return None
-    c = it.store.canon
+
+    def eq(x, y):
+        return it.store.decide_eq0(Lin.of(x) - Lin.of(y)) is True
     for x, y in zip(a.segs, b.segs):
         if type(x) is not type(y):
             return None
@@ -343,13 +345,13 @@ def seq_eq_structural(it, a, b):
             if x.data != y.data:
                 return None
         elif isinstance(x, Sl):
-            if x.src is not y.src or c(x.lo) != c(y.lo) or c(x.hi) != c(y.hi):
+            if x.src is not y.src or not eq(x.lo, y.lo) or not eq(x.hi, y.hi):
                 return None
         elif isinstance(x, Rep):
-            if not _same_unit(x.unit, y.unit) or c(x.count) != c(y.count):
+            if not _same_unit(x.unit, y.unit) or not eq(x.count, y.count):
                 return None
         elif isinstance(x, Num):
-            if x is not y and not (x.val is not None and y.val is not None and c(x.val) == c(y.val)
+            if x is not y and not (x.val is not None and y.val is not None and eq(x.val, y.val)
                                    and x.base == y.base and x.minw == y.minw and x.fill == y.fill):
                 return None
         elif isinstance(x, Opq):
